@@ -301,6 +301,107 @@ func RuleSubjects() map[string][]Subject {
 	return ruleSubjects
 }
 
+var (
+	ruleMethOnce sync.Once
+	ruleMethods  map[string]*MethodSubjects
+	reTypeIs     = regexp.MustCompile("Type\\.Is\\(`\\*?([a-z][a-z0-9]*)\\.([A-Z]\\w*)`\\)")
+	reVarMethod  = regexp.MustCompile(`\$\w+\.([A-Z]\w*)\(`)
+)
+
+// MethodSubjects: a rule group that filters a pattern variable on a package type (m["t"].Type.Is(`time.Time`)) and
+// whose patterns call methods on pattern variables ($t.Unix()) makes claims about that type's methods.
+type MethodSubjects struct {
+	Pkgs    map[string]string // import path -> "pkg.Type" as written in the filter
+	Methods map[string]bool
+}
+
+func RuleMethodSubjects() map[string]*MethodSubjects {
+	ruleMethOnce.Do(func() {
+		ruleMethods = map[string]*MethodSubjects{}
+		data, err := os.ReadFile(filepath.Join(common.RepoDir, "checkers", "rules", "rules.go"))
+		if err != nil {
+			return
+		}
+		src := string(data)
+		locs := reFuncDecl.FindAllStringSubmatchIndex(src, -1)
+		for i, loc := range locs {
+			name := src[loc[2]:loc[3]]
+			end := len(src)
+			if i+1 < len(locs) {
+				end = locs[i+1][0]
+			}
+			body := src[loc[1]:end]
+			ms := &MethodSubjects{Pkgs: map[string]string{}, Methods: map[string]bool{}}
+			for _, m := range reTypeIs.FindAllStringSubmatch(body, -1) {
+				if path, ok := stdQual[m[1]]; ok {
+					ms.Pkgs[path] = m[1] + "." + m[2]
+				}
+			}
+			for _, mm := range reMatchArg.FindAllStringSubmatch(body, -1) {
+				for _, lit := range reStrLit.FindAllString(mm[1], -1) {
+					for _, m := range reVarMethod.FindAllStringSubmatch(lit, -1) {
+						ms.Methods[m[1]] = true
+					}
+				}
+			}
+			if len(ms.Pkgs) > 0 && len(ms.Methods) > 0 {
+				ruleMethods[name] = ms
+			}
+		}
+	})
+	return ruleMethods
+}
+
+// CheckC20Method: a diagnostic of a rule group with method subjects that starts at a method call x.M(...) (M one of
+// the group's methods, x not a package) is about M of the filtered package type: the selected method must be declared
+// in that package (a promoted method of an embedded time.Time is; an overriding or unrelated user method is not).
+func CheckC20Method(p *Pkg, f *File, checker string, d Diag) *C20Finding {
+	ms := RuleMethodSubjects()[checker]
+	if ms == nil || !d.Pos.IsValid() || Fset.File(d.Pos) != Fset.File(f.AST.Pos()) {
+		return nil
+	}
+	var found *C20Finding
+	ast.Inspect(f.AST, func(n ast.Node) bool {
+		if n == nil || found != nil {
+			return false
+		}
+		if _, isFile := n.(*ast.File); !isFile && (n.Pos() > d.Pos || n.End() <= d.Pos) {
+			return false
+		}
+		c, ok := n.(*ast.CallExpr)
+		if !ok || c.Pos() != d.Pos {
+			return true
+		}
+		sel, ok := c.Fun.(*ast.SelectorExpr)
+		if !ok || !ms.Methods[sel.Sel.Name] {
+			return true
+		}
+		if id, ok := sel.X.(*ast.Ident); ok {
+			if _, isPkg := p.Info.Uses[id].(*types.PkgName); isPkg {
+				return true
+			}
+		}
+		obj := p.Info.Uses[sel.Sel]
+		if fn, ok := obj.(*types.Func); ok && fn.Pkg() != nil {
+			if _, real := ms.Pkgs[fn.Pkg().Path()]; real {
+				return true
+			}
+		}
+		var tys []string
+		for _, t := range ms.Pkgs {
+			tys = append(tys, t)
+		}
+		sort.Strings(tys)
+		recv := ""
+		if t := p.Info.TypeOf(sel.X); t != nil {
+			recv = " on a value of type " + t.String()
+		}
+		found = &C20Finding{Subject: strings.Join(tys, "|") + " method", Spelled: types.ExprString(sel), Resolves: describeObj(obj) + recv}
+		return false
+	})
+	return found
+}
+
 // SubjectsOf returns the subject list of a checker (nil when it has no API subject).
 func SubjectsOf(checker string) []Subject {
 	if s, ok := handSubjects[checker]; ok {
